@@ -1437,6 +1437,10 @@ theorem C12_source_arches :
     srcArches = [lit "src", lit "nosrc"] ∧ nevraSrcArches = srcArches ∧ ∀ x ∈ srcArches, x ∈ Gen.RPM_ARCHES := by
   decide
 
+/-- the documented set of categories is exactly the generated table (both inclusions: an entry added to or removed from
+`SUPPORTED_CATEGORIES` breaks this) -/
+theorem C12_categories : Gen.SUPPORTED_CATEGORIES = [lit "binary", lit "debug", lit "source"] := by decide
+
 /-- F5 (repaired): an unparsable name is a `ValueError` -/
 theorem C12_unparsable_is_valueError :
     (Rpms.add empty { variant := lit "S", arch := lit "x86_64", nevra := lit "foo:bar", path := lit "p", sigkey := none,
